@@ -293,15 +293,15 @@ Fixpoint parts_toks (first : bool) (ps : list token) : list token :=
   end.
 
 Record cparam := mkCParam {
-  cp_star : bool; cp_key : string; cp_num : option nat; cp_parts : list string;
+  cp_star : bool; cp_key : string; cp_num : option Z; cp_parts : list string;
   cp_sep : sepshape; cp_val : cvseq }.
 Definition cparam_toks (c : cparam) : list token :=
   (if cp_star c then [("*", "*")] else [])
   ++ [("KEYWORD", cp_key c)]
-  ++ (match cp_num c with Some n => [("NUMBER", show_nat n)] | None => [] end)
+  ++ (match cp_num c with Some n => [("NUMBER", show_Z n)] | None => [] end)
   ++ parts_toks true (map (fun p => ("PARTICLE", p)) (cp_parts c))
   ++ sep_toks (cp_sep c) ++ cvseq_toks (cp_val c).
-Definition nat_nonzero (n : option nat) : bool := match n with Some O => false | _ => true end.
+Definition nat_nonzero (n : option Z) : bool := match n with Some z => (0 <? z)%Z | None => true end.
 Definition cparam_ok (c : cparam) : bool :=
   mem_str (cp_key c) core_cell_keys && nat_nonzero (cp_num c)
   && forallb (fun p => mem_str p core_letter_particles) (cp_parts c) && cvseq_ok (cp_val c).
@@ -363,13 +363,13 @@ Definition surface_word_class (w : string) : string :=
 
 (* ---- classifier of a data input: [modifier] name [number] [: particles] *)
 Record dcls := mkDcls {
-  d_mod : option string; d_prefix : string; d_num : option nat; d_parts : list (bool * string) }.
+  d_mod : option string; d_prefix : string; d_num : option Z; d_parts : list (bool * string) }.
 Definition dpart_tok (p : bool * string) : token :=
   ((if fst p then "PARTICLE_SPECIAL" else "PARTICLE"), snd p).
 Definition dcls_toks (d : dcls) : list token :=
   (match d_mod d with Some m => [("PARTICLE_SPECIAL", m)] | None => [] end)
   ++ [(word_class (d_prefix d), d_prefix d)]
-  ++ (match d_num d with Some n => [("NUMBER", show_nat n)] | None => [] end)
+  ++ (match d_num d with Some n => [("NUMBER", show_Z n)] | None => [] end)
   ++ parts_toks true (map dpart_tok (d_parts d)).
 Definition dpart_ok (p : bool * string) : bool :=
   if fst p then mem_str (snd p) core_special_particles else mem_str (snd p) core_letter_particles.
@@ -506,10 +506,10 @@ Definition zfrac_toks (z : zfrac) : list token :=
   ((if z_lib z then "ZAID" else "NUMBER"), z_zaid z) :: opad_toks (z_pad z)
   ++ num_tok (z_frac z) :: opad_toks (z_trail z).
 Record matcard := mkMat {
-  m_lead : option pad; m_num : nat; m_pad : option pad; m_first : zfrac; m_rest : list zfrac;
+  m_lead : option pad; m_num : Z; m_pad : option pad; m_first : zfrac; m_rest : list zfrac;
   m_params : list mparam }.
 Definition mat_card_toks (m : matcard) : list token :=
-  opad_toks (m_lead m) ++ [("TEXT", "m"); ("NUMBER", show_nat (m_num m))] ++ opad_toks (m_pad m)
+  opad_toks (m_lead m) ++ [("TEXT", "m"); ("NUMBER", show_Z (m_num m))] ++ opad_toks (m_pad m)
   ++ zfrac_toks (m_first m) ++ flat_map zfrac_toks (m_rest m) ++ flat_map mparam_toks (m_params m).
 (* MaterialParser: isotopes ::= ZAID pairs | plain numbers | plain numbers followed by ZAID pairs;
    a plain pair after a ZAID pair has no production *)
@@ -519,19 +519,19 @@ Fixpoint plain_first (seen_lib : bool) (l : list zfrac) : bool :=
   | z :: r => if z_lib z then plain_first true r else negb seen_lib && plain_first false r
   end.
 Definition matcard_shape_b (m : matcard) : bool :=
-  negb (Nat.eqb (m_num m) 0) && forallb (fun z => nonzero (z_frac z)) (m_first m :: m_rest m)
+  (0 <? m_num m)%Z && forallb (fun z => nonzero (z_frac z)) (m_first m :: m_rest m)
   && plain_first false (m_first m :: m_rest m) && forallb mparam_ok (m_params m).
 Definition matcard_shape (m : matcard) : Prop := matcard_shape_b m = true.
 
 (* ---- thermal scattering cards *)
 Record mtcard := mkMT {
-  t_lead : option pad; t_num : nat; t_pad : option pad; t_first : string * option pad;
+  t_lead : option pad; t_num : Z; t_pad : option pad; t_first : string * option pad;
   t_rest : list (string * option pad) }.
 Definition law_toks (l : string * option pad) : list token := ("THERMAL_LAW", fst l) :: opad_toks (snd l).
 Definition mt_card_toks (m : mtcard) : list token :=
-  opad_toks (t_lead m) ++ [("TEXT", "mt"); ("NUMBER", show_nat (t_num m))] ++ opad_toks (t_pad m)
+  opad_toks (t_lead m) ++ [("TEXT", "mt"); ("NUMBER", show_Z (t_num m))] ++ opad_toks (t_pad m)
   ++ law_toks (t_first m) ++ flat_map law_toks (t_rest m).
-Definition mtcard_shape (m : mtcard) : Prop := t_num m <> 0.
+Definition mtcard_shape (m : mtcard) : Prop := (0 <? t_num m)%Z = true.
 
 (* ---- a shape is one card *)
 Inductive shape :=
@@ -547,7 +547,7 @@ Definition gen (sh : shape) : list token :=
 Definition shape_ok_b (sh : shape) : bool :=
   match sh with
   | ShCell c => cell_shape_b c | ShSurf s => surf_shape_b s | ShData d => data_shape_b d
-  | ShMat m => matcard_shape_b m | ShMT m => negb (Nat.eqb (t_num m) 0)
+  | ShMat m => matcard_shape_b m | ShMT m => (0 <? t_num m)%Z
   | ShTally t => tally_shape_b t | ShTallySeg t => tallyseg_shape_b t | ShSdef s => sdef_shape_b s
   | ShText _ => true
   end.
@@ -557,8 +557,8 @@ Definition classifier_toks (sh : shape) : list token :=
   | ShData d => opad_toks (dc_lead d) ++ dcls_toks (dc_cls d)
   | ShTally t | ShTallySeg t => opad_toks (tc_lead t) ++ dcls_toks (tc_cls t)
   | ShSdef s => opad_toks (sd_lead s) ++ dcls_toks (sd_cls s)
-  | ShMat m => opad_toks (m_lead m) ++ [("TEXT", "m"); ("NUMBER", show_nat (m_num m))]
-  | ShMT m => opad_toks (t_lead m) ++ [("TEXT", "mt"); ("NUMBER", show_nat (t_num m))]
+  | ShMat m => opad_toks (m_lead m) ++ [("TEXT", "m"); ("NUMBER", show_Z (m_num m))]
+  | ShMT m => opad_toks (t_lead m) ++ [("TEXT", "mt"); ("NUMBER", show_Z (t_num m))]
   | ShText x => text_toks x
   | _ => []
   end.
@@ -745,6 +745,8 @@ Fixpoint parse_digits (s : string) : option (list nat) :=
   end.
 Definition parse_onat (s : string) : option (option nat) :=
   if String.eqb s "-" then Some None else option_map Some (parse_nat s).
+Definition parse_oZ (s : string) : option (option Z) :=
+  if String.eqb s "-" then Some None else option_map Some (parse_Z s).
 Definition parse_ostr (s : string) : option string :=
   if String.eqb s "-" then None else Some (hex_decode s).
 Definition parse_strs (s : string) : list string :=
@@ -783,7 +785,7 @@ Definition parse_real (f : list string) : option real :=
   end.
 
 Definition mk_dcls (md pfx n parts : string) : option dcls :=
-  option_map (fun k => mkDcls (parse_ostr md) (hex_decode pfx) k (parse_dparts parts)) (parse_onat n).
+  option_map (fun k => mkDcls (parse_ostr md) (hex_decode pfx) k (parse_dparts parts)) (parse_oZ n).
 
 Definition step (st : option (list val)) (w : string) : option (list val) :=
   match st with
@@ -832,7 +834,7 @@ Definition step (st : option (list val)) (w : string) : option (list val) :=
     | ["sepeq"], VOP pr :: VOP pl :: s => Some (VSep (SepEq pl pr) :: s)
     | ["cp"; star; key; n; parts], VC v :: VSep sp :: s =>
         option_map (fun k => VCP (mkCParam (String.eqb star "1") (hex_decode key) k (parse_strs parts) sp v) :: s)
-                   (parse_onat n)
+                   (parse_oZ n)
     | ["cps0"], _ => Some (VCPS [] :: stack)
     | ["cpsadd"], VCP c :: VCPS l :: s => Some (VCPS (l ++ [c]) :: s)
     | ["void"], VP p :: VR z :: s => Some (VM (MVoid z p) :: s)
@@ -887,12 +889,12 @@ Definition step (st : option (list val)) (w : string) : option (list val) :=
     | ["mps0"], _ => Some (VMPS [] :: stack)
     | ["mpsadd"], VMP m :: VMPS l :: s => Some (VMPS (l ++ [m]) :: s)
     | ["mcard"; n], VMPS ps :: VZS zs :: VZ z :: VOP p :: VOP lead :: s =>
-        option_map (fun k => VShape (ShMat (mkMat lead k p z zs ps)) :: s) (parse_nat n)
+        option_map (fun k => VShape (ShMat (mkMat lead k p z zs ps)) :: s) (parse_Z n)
     | ["law"; t], VOP p :: s => Some (VLaw (hex_decode t, p) :: s)
     | ["laws0"], _ => Some (VLaws [] :: stack)
     | ["lawsadd"], VLaw l :: VLaws ls :: s => Some (VLaws (ls ++ [l]) :: s)
     | ["mtcard"; n], VLaws ls :: VLaw l :: VOP p :: VOP lead :: s =>
-        option_map (fun k => VShape (ShMT (mkMT lead k p l ls)) :: s) (parse_nat n)
+        option_map (fun k => VShape (ShMT (mkMT lead k p l ls)) :: s) (parse_Z n)
     | _, _ => None
     end
   end.
